@@ -452,8 +452,8 @@ fn iter_packed_values(raw: u16, format: DeltaFormat, n: usize) -> impl Iterator<
         let sign = val & sign_mask != 0;
 
         let val = if sign {
-            // it is 2023 and I am googling to remember how twos compliment works
-            -((((!val) & mask) + 1) as i8)
+            // sign extend the `bits` wide two's complement value
+            (val as i32 - (1i32 << bits)) as i8
         } else {
             val as i8
         };
